@@ -76,6 +76,21 @@ let () =
          | Some Model.OFooterRange -> "footer-range"
          | Some Model.OFooterDecode -> "footer-decode")
     | _ -> failwith "c14.open args");
+  (* c14.openx <skip_magic> <optimistic> <read buffer size> <has_key> <L> <hdr bytes> <tail bytes> <decodes>
+     -> ok | error class : OpenFile under SkipMagicBytes / OptimisticRead / ReadBufferSize *)
+  register "c14.openx" (function
+    | [sm; opt; rbs; hk; l; hdr; tail; dec] ->
+        (match Model.open_verdict_cfg (bool_of_tok sm) (bool_of_tok opt) (n_of_int (int_of_string rbs)) (bool_of_tok hk)
+                 (n_of_int (int_of_string l)) (bytes_of_tok hdr) (bytes_of_tok tail) (bool_of_tok dec) with
+         | None -> "ok"
+         | Some Model.OShortHeader -> "short-header"
+         | Some Model.OBadHeaderMagic -> "bad-header-magic"
+         | Some Model.ONeedDecryption -> "need-decryption"
+         | Some Model.OShortTail -> "short-tail"
+         | Some Model.OBadTailMagic -> "bad-tail-magic"
+         | Some Model.OFooterRange -> "footer-range"
+         | Some Model.OFooterDecode -> "footer-decode")
+    | _ -> failwith "c14.openx args");
   (* c14.pages <cur> <size> <avail> <header:body,...>  ->  <pages returned>/<end|unexpected> *)
   register "c14.pages" (function
     | [cur; size; avail; pages] ->
